@@ -126,7 +126,10 @@ type c18Rendered struct {
 //	la-applied        last round: staged, lock updated, tiles applied, crash before the checkpoint upload
 //	la-partial        like la-applied but only the hash tiles were applied
 //	la-staged         last round: staged, lock updated, crash before any tile was applied
-func c18RenderLog(dir string, tr *c18Tree, variant string, immut bool) *c18Rendered {
+//
+// final selects the final_tree_head written into log.v3.json (see c18FinalFor);
+// nil is returned when the history has no such tree.
+func c18RenderLog(dir string, tr *c18Tree, variant string, immut bool, final string) *c18Rendered {
 	w := &c18Writer{root: dir, immut: immut}
 	hist := tr.hist
 	k := len(hist)
@@ -168,7 +171,14 @@ func c18RenderLog(dir string, tr *c18Tree, variant string, immut bool) *c18Rende
 	}
 	w.put("checkpoint", c18SignCheckpoint(c18Name, published, tr.root(published), c18RoundTime(pubRound)), false)
 	w.put("_roots.pem", nil, false)
-	w.put("log.v3.json", c18LogV3JSON(), false)
+	ft, ok := c18FinalFor(tr, published, final)
+	if !ok {
+		return nil
+	}
+	if final == "behind" {
+		r.healthy = false // not a state the log software produces; the tool may refuse it
+	}
+	w.put("log.v3.json", c18LogV3JSON(ft), false)
 	w.put("issuer/"+strings.Repeat("ab", 32), []byte("issuer certificate placeholder"), true)
 	r.published = published
 	if published > 0 {
@@ -269,7 +279,7 @@ func c18RenderSparse(dir string, size int64, mask int, immut bool) *c18Rendered 
 	var root verifmc.Hash
 	copy(root[:], []byte("c18 sparse directory: no tree"))
 	w.put("checkpoint", c18SignCheckpoint(c18Name, size, root, c18BaseTime), false)
-	w.put("log.v3.json", c18LogV3JSON(), false)
+	w.put("log.v3.json", c18LogV3JSON(nil), false)
 	return &c18Rendered{root: dir, treeRoot: dir, published: size}
 }
 
